@@ -238,14 +238,19 @@ pub fn run(ctx: &Ctx, acc: &mut Acc) {
                 let mut out = Vec::new();
                 let mut w = FlacStreamWriter::new(&mut out, Options::default());
                 let pcm = vec![0i32; 16];
-                w.write(rate, 1, bps, &pcm).map(|_| out.len())
+                w.write(rate, 1, bps, &pcm).map(|_| out)
             });
             match r {
                 Ok(Err(_)) => acc.outcome("non-subset:refused"),
-                Ok(Ok(len)) => {
-                    // accepted: then it must at least be decodable from its own header (else it is a fabricated promise)
-                    acc.outcome("non-subset:ACCEPTED");
-                    acc.violation("C16|non-subset-parameters-accepted".to_string(), format!("write(rate {rate}, 1 ch, {bps} bit) accepted ({len} bytes) although the frame header cannot carry these parameters"), json!({"kind":"raw-nonsubset","rate":rate,"bps":bps}));
+                Ok(Ok(bytes)) => {
+                    // accepted: then the frame must be decodable from its own header with exactly these parameters
+                    let ok = matches!(guarded(|| refdec::decode_frame(&bytes, 0, None)), Ok(Ok(f)) if f.rate == rate && f.bps as u32 == bps && f.len == bytes.len());
+                    if ok {
+                        acc.outcome("non-subset:accepted-and-self-describing");
+                    } else {
+                        acc.outcome("non-subset:ACCEPTED");
+                        acc.violation("C16|non-subset-parameters-accepted".to_string(), format!("write(rate {rate}, 1 ch, {bps} bit) accepted ({} bytes) but the frame does not describe these parameters in its own header", bytes.len()), json!({"kind":"raw-nonsubset","rate":rate,"bps":bps}));
+                    }
                 }
                 Err(p) => acc.violation(format!("C16|panic@{}", crate::core::panic_loc(&p)), format!("write(rate {rate}, {bps} bit) panics: {p}"), json!({"kind":"raw-nonsubset","rate":rate,"bps":bps})),
             }
@@ -341,9 +346,14 @@ pub fn replay(v: &Value) -> Option<(bool, String)> {
             let r = guarded(|| {
                 let mut out = Vec::new();
                 let mut w = FlacStreamWriter::new(&mut out, Options::default());
-                w.write(rate, 1, bps, &[0i32; 16]).is_ok()
+                w.write(rate, 1, bps, &[0i32; 16]).map(|_| out).ok()
             });
-            Some((!matches!(r, Ok(false)), format!("{r:?}")))
+            let bad = match &r {
+                Ok(None) => false,
+                Ok(Some(bytes)) => !matches!(guarded(|| refdec::decode_frame(bytes, 0, None)), Ok(Ok(f)) if f.rate == rate && f.bps as u32 == bps && f.len == bytes.len()),
+                Err(_) => true,
+            };
+            Some((bad, format!("{:?}", r.map(|b| b.map(|x| x.len())))))
         }
         _ => None,
     }
